@@ -118,6 +118,36 @@ func runC16(c *report.Ctx) {
 	}
 
 	ruleClassGate(c)
+	// the sentinel is returned only on the library's class verdict: every `return ErrUnsupportedScript`
+	// is dominated by the call of txscript.GetScriptInfo (no private pre-filter may reject a script
+	// the consensus templates accept)
+	if pps != nil && gsi != nil {
+		sp := p.SSAPkgs[pkgUtils]
+		sentinel, _ := sp.Members["ErrUnsupportedScript"].(*ssa.Global)
+		gcalls := calls(pps, gsi)
+		an.Instrs(pps, func(in ssa.Instruction) {
+			r, ok := in.(*ssa.Return)
+			if !ok || sentinel == nil {
+				return
+			}
+			u, ok := an.RetOperand(r, len(r.Results)-1).(*ssa.UnOp)
+			if !ok || u.X != ssa.Value(sentinel) {
+				return
+			}
+			dom := false
+			for _, g := range gcalls {
+				if instrDominates(g, r) {
+					dom = true
+				}
+			}
+			key := sk(pps) + ":sentinel-on-library-verdict"
+			if dom {
+				c.OK(key, "ErrUnsupportedScript is returned after txscript.GetScriptInfo classified the script", posOf(c, r))
+			} else {
+				c.Fail(key, "ErrUnsupportedScript is returned before the consensus library classified the script (a private pre-filter): a script the library accepts (e.g. the 55-byte legacy binding template) is dropped by the wallet", posOf(c, r))
+			}
+		})
+	}
 
 	// ---- (3) constructor errors examined -------------------------------------------------------
 	c.Rule("address-errors-checked", "in ParsePkScript the error of an address constructor that can fail (its input is not a full slice of a 32-byte array) reaches a nil test before any success return", 2)
@@ -265,6 +295,32 @@ func runC16(c *report.Ctx) {
 		{fn(c, pkgWallet, "", "PayToWitnessV0Address"), "IsWitnessV0Address", "PayToAddrScript"},
 		{fn(c, pkgWallet, "", "constructStakingTxOut"), "IsWitnessStakingAddress", "PayToStakingAddrScript"},
 		{fn(c, pkgWallet, "WalletManager", "EstimateBindingTxFee"), "", "PayToBindingScriptHashScript"},
+	}
+	// the API-side validators in front of the builders: success is dominated by the kind predicate
+	for _, v := range []struct {
+		f    *ssa.Function
+		pred string
+	}{{fn(c, pkgAPI, "", "parseBindingTarget"), "IsValidBindingTarget"}} {
+		if v.f == nil {
+			continue
+		}
+		pred := p.Fn("github.com/massnetorg/mass-core/massutil", "", v.pred)
+		if pred == nil {
+			c.Lost("massutil." + v.pred)
+			continue
+		}
+		key := sk(v.f) + ":kind-checked:" + v.pred
+		s := &an.Search{P: p, Fn: v.f, GoalReturn: func(r *ssa.Return, pr *ssa.BasicBlock) bool {
+			if p.ClassifyReturn(r, pr) == an.RetError {
+				return false
+			}
+			return !an.AnyAtom(p.Guards(r.Block()), func(a an.Atom) bool { return an.BoolCall(a, pred, "", true) })
+		}}
+		if w := s.Run(v.f.Blocks[0], 0, nil); w != nil {
+			c.Fail(key, "an address is accepted as binding target without massutil."+v.pred+": another address kind of the same length (e.g. a script-hash address) is embedded and reads back as a different target", p.Pos(v.f.Pos()), w...)
+		} else {
+			c.OK(key, "success dominated by massutil."+v.pred, p.Pos(v.f.Pos()))
+		}
 	}
 	for _, b := range bs {
 		if b.f == nil {
